@@ -823,3 +823,38 @@ impl Modelled for TOnlyLast {
 		TOnlyLast { v: <[u16; 2]>::from_val(&fields(v)[0]), m: Marker, p: PhantomData }
 	}
 }
+
+/// transparent newtype: attributed payload field plus an un-attributed zero-sized field
+#[derive(Encode, Decode, DecodeWithMemTracking, MaxEncodedLen, Debug, PartialEq)]
+#[repr(transparent)]
+pub struct TCompactZ(#[codec(compact)] pub u64, pub PhantomData<u8>);
+impl Modelled for TCompactZ {
+	fn ty() -> Ty {
+		Ty::Struct { name: "TCompactZ".into(), fields: vec![FieldTy::as_(Ty::u(8), Ty::Compact { bits: 64 }), FieldTy::plain(Ty::Unit)] }
+	}
+	fn to_val(&self) -> Val {
+		Val::Tuple(vec![self.0.to_val(), Val::Unit])
+	}
+	fn from_val(v: &Val) -> Self {
+		TCompactZ(u64::from_val(&fields(v)[0]), PhantomData)
+	}
+}
+
+#[derive(Encode, Decode, DecodeWithMemTracking, MaxEncodedLen, Debug, PartialEq)]
+#[repr(transparent)]
+pub struct TEncAsZ {
+	pub z: (),
+	#[codec(encoded_as = "Compact<u16>")]
+	pub v: u16,
+}
+impl Modelled for TEncAsZ {
+	fn ty() -> Ty {
+		Ty::Struct { name: "TEncAsZ".into(), fields: vec![FieldTy::plain(Ty::Unit), FieldTy::as_(Ty::u(2), Ty::Compact { bits: 16 })] }
+	}
+	fn to_val(&self) -> Val {
+		Val::Tuple(vec![Val::Unit, self.v.to_val()])
+	}
+	fn from_val(v: &Val) -> Self {
+		TEncAsZ { z: (), v: u16::from_val(&fields(v)[1]) }
+	}
+}
